@@ -108,7 +108,7 @@ def main():
         engines.setdefault(c["engine"], []).append(pid)
     m = {
         "version": 1,
-        "setup_cmd": "python3 harness/build.py all && python3 harness/build.py --flavor asan btcdeb btcc tap btcdeb_tty mc_bounds",
+        "setup_cmd": "python3 harness/build.py all && python3 harness/build.py --flavor asan btcdeb btcc tap btcdeb_tty mc_bounds kerlhist btcdeb_tty_rl",
         "hooks": {
             "guard": "BTCDEB_VERIF",
             "enable": "no source hooks are used: checks compile the working tree's own translation units out of tree (harness/build.py) and link them with the harness; forced-interactive btcdeb is obtained by interposing isatty() at link time",
